@@ -230,6 +230,12 @@ func c08Fill(rng *rand.Rand, v reflect.Value, depth int, types []reflect.Type) {
 
 // c08Wrap stores inner (a T) in a value of field type ft that mentions T
 func c08Wrap(ft reflect.Type, inner reflect.Value, alt int) reflect.Value {
+	return c08WrapShare(ft, inner, alt, false)
+}
+
+// share: where the member has room for two references, both refer to the same node (the value is a
+// DAG: the node is encoded twice, from two places)
+func c08WrapShare(ft reflect.Type, inner reflect.Value, alt int, share bool) reflect.Value {
 	T := inner.Type()
 	ptr := func() reflect.Value {
 		p := reflect.New(T)
@@ -244,6 +250,9 @@ func c08Wrap(ft reflect.Type, inner reflect.Value, alt int) reflect.Value {
 		s := reflect.MakeSlice(ft, 1, 1)
 		if ft.Elem().Kind() == reflect.Ptr {
 			s.Index(0).Set(ptr())
+			if share {
+				s = reflect.Append(s, s.Index(0))
+			}
 		} else {
 			s.Index(0).Set(inner)
 		}
@@ -251,7 +260,11 @@ func c08Wrap(ft reflect.Type, inner reflect.Value, alt int) reflect.Value {
 	case reflect.Map:
 		m := reflect.MakeMap(ft)
 		if ft.Elem().Kind() == reflect.Ptr {
-			m.SetMapIndex(reflect.ValueOf("k"), ptr())
+			p := ptr()
+			m.SetMapIndex(reflect.ValueOf("k"), p)
+			if share {
+				m.SetMapIndex(reflect.ValueOf("again"), p)
+			}
 		} else {
 			m.SetMapIndex(reflect.ValueOf("k"), inner)
 		}
@@ -263,7 +276,11 @@ func c08Wrap(ft reflect.Type, inner reflect.Value, alt int) reflect.Value {
 			out.Set(inner)
 		}
 	case reflect.Array:
-		out.Index(ft.Len() - 1).Set(ptr())
+		p := ptr()
+		out.Index(ft.Len() - 1).Set(p)
+		if share {
+			out.Index(0).Set(p)
+		}
 	case reflect.Struct:
 		out.Field(0).Set(ptr())
 	}
@@ -278,7 +295,8 @@ func c08Chain(t reflect.Type, d int) reflect.Value {
 		outer := reflect.New(t).Elem()
 		outer.Field(0).Set(c08Small(t.Field(0).Type, i))
 		outer.Field(2).Set(c08Small(t.Field(2).Type, i+1))
-		outer.Field(1).Set(c08Wrap(t.Field(1).Type, inner, i))
+		// the two innermost levels are shared (reached twice), the rest is a chain
+		outer.Field(1).Set(c08WrapShare(t.Field(1).Type, inner, i, i <= 2))
 		inner = outer
 	}
 	return inner
@@ -583,7 +601,7 @@ func runC08(c *Ctx) {
 	c.RunCases("depth", ndepth, func(c *Ctx, k int, rng *rand.Rand) {
 		t := fam[k%len(fam)]
 		d := depths[(k/len(fam))%len(depths)]
-		if !c.Thorough() && d > 128 && (int64(k)+c.Seed)%3 != 0 {
+		if !c.Thorough() && d > 128 && (int64(k)+int64(k/len(fam))+c.Seed)%3 != 0 {
 			return // the quick tier takes a third of the family at the large depths (which third: by seed)
 		}
 		v := c08Chain(t, d)
